@@ -384,6 +384,16 @@ STUB_COMPONENTS = ["asyncio event loop (virtual time)", "TestRunner.run_test_tas
                    "TestWorker.start", "SpawnerDispatcher", "avocado Job object", "TestGraph.visualize (no-op)"]
 
 
+def scenario_context(scen):
+    """Input class of a scenario, for known findings that are identified by their input."""
+    two_image_cloning = "no"
+    if len(str(scen.get("params", {}).get("images_vm1", "")).split()) > 1 and scen.get("generated") is not None:
+        from travsim import gensuite
+        if gensuite.make_spec(scen["generated"]).get("multi"):
+            two_image_cloning = "yes"
+    return {"nets": scen["nets"], "tests": scen["tests"], "two_image_cloning": two_image_cloning}
+
+
 def aggregate(prop, plans, results, report, known):
     agg = {"ok_runs": 0, "execs": 0, "vtime": 0.0, "steps": 0, "ilv": set(), "ilv_trigger": set(),
            "pairs": set(), "faults": {}, "probes": {}, "endings": {}, "samples": [], "violating": [],
@@ -422,7 +432,7 @@ def aggregate(prop, plans, results, report, known):
                                    "input": {k: scen[k] for k in ("tests", "nets", "mode", "params", "families", "epochs") if k in scen},
                                    "history": result["sample"]})
         for v in result["violations"]:
-            v["context"] = {"nets": plans[index]["scenario"]["nets"], "tests": plans[index]["scenario"]["tests"]}
+            v["context"] = scenario_context(plans[index]["scenario"])
             entry = common.match_known(v, known)
             if entry is not None:
                 report.known_finding(entry)
